@@ -179,7 +179,7 @@ class JsonDocument(HierDictDocument):
                     in_string = in_string.decode(in_string_encoding)
             ctx.in_document = json.loads(in_string, **self.kwargs)
 
-        except (JSONDecodeError, LookupError) as e:
+        except (JSONDecodeError, LookupError, RecursionError) as e:
             # LookupError: the charset in the Content-Type header is not a
             # codec python knows about
             raise Fault('Client.JsonDecodeError', repr(e))
